@@ -81,6 +81,7 @@ class Wavefront:
         for field in fields:
             field_data = []
             for wavelength in wavelengths:
+                self._wavelength = wavelength
                 # Trace chief ray for field & find reference sphere properties
                 self._trace_chief_ray(field, wavelength)
 
@@ -203,6 +204,10 @@ class Wavefront:
             EPD = self.optic.paraxial.EPD()
             tilt_correction = ((1 - x) * np.sin(np.radians(x_tilt)) * EPD / 2 +
                                (1 - y) * np.sin(np.radians(y_tilt)) * EPD / 2)
+            # optical path in the object medium
+            n_object = self.optic.object_surface.material_post.n(
+                self._wavelength)
+            tilt_correction = n_object * tilt_correction
         return opd - tilt_correction
 
     def _opd_image_to_xp(self, xc, yc, zc, R):
@@ -222,9 +227,11 @@ class Wavefront:
         yr = self.optic.surface_group.y[-1, :]
         zr = self.optic.surface_group.z[-1, :]
 
-        L = -self.optic.surface_group.L[-1, :]
-        M = -self.optic.surface_group.M[-1, :]
-        N = -self.optic.surface_group.N[-1, :]
+        # direction in which the rays arrive at the image surface (the
+        # record of the image surface holds the direction after it)
+        L = -self.optic.surface_group.L[-2, :]
+        M = -self.optic.surface_group.M[-2, :]
+        N = -self.optic.surface_group.N[-2, :]
 
         a = L**2 + M**2 + N**2
         b = 2*L*(xr - xc) + 2*M*(yr - yc) + 2*N*(zr - zc)
@@ -234,7 +241,10 @@ class Wavefront:
         d = b ** 2 - 4 * a * c
         t = (-b - np.sqrt(d)) / (2 * a)
         t[t < 0] = (-b[t < 0] + np.sqrt(d[t < 0])) / (2 * a[t < 0])
-        return t
+
+        # optical, not geometric, length of the leg in the image medium
+        n_image = self.optic.image_surface.material_pre.n(self._wavelength)
+        return n_image * t
 
 
 class OPDFan(Wavefront):
